@@ -2,6 +2,7 @@ package c05
 
 import (
 	"fmt"
+	"strings"
 
 	"verifharness/engines/xeng"
 	"verifharness/gen"
@@ -30,7 +31,11 @@ func init() { typeOf["Stray"] = reflect.TypeOf(Stray{}) }
 // strayElements: lists whose first elements make their element goroutine panic inside generated code (a value of a
 // type the schema does not know), followed by ordinary elements, under every worker limit: the panics are recovered
 // per element, and the response function must still return - every worker slot is given back.
-func strayElements(meta *gen.Meta) (int, error) {
+func strayElements(outDir string, meta *gen.Meta) (int, error) {
+	cf := &gen.CaseFile{Dir: outDir, Prop: "C05", Kind: "joinpanic", Requires: []string{"Base.Prelude", "Model.JoinPanic", "Corr.Corr_C05"}, Type: "jp_case",
+		Checks: []gen.Check{{Label: "corr", Fn: "jp_corr"}, {Label: "mon", Fn: "jp_mon"}, {Label: "monmodel", Fn: "jp_monmodel"}}, Shard: 500}
+	var descr []any
+	defer func() { _ = meta.AddCaseFile(cf, descr) }()
 	cfgs := []xeng.Config{xeng.QuickConfigs[0], xeng.ThoroughConfigs[2], xeng.QuickConfigs[1], xeng.ThoroughConfigs[3]}
 	probes, err := xeng.BuildProbes(xeng.ProbeSchema, cfgs, map[string]string{"stray.go": StrayFile})
 	if err != nil {
@@ -60,6 +65,21 @@ func strayElements(meta *gen.Meta) (int, error) {
 		reported := map[int]bool{}
 		for i, r := range res {
 			n++
+			{
+				// for the model of the worker-limit join with panicking closures (Model.JoinPanic)
+				ln := cases[i].Oracle.Lens["nodes"]
+				limit := workerLimit(p.Cfg.Name)
+				if limit == 0 {
+					limit = ln // no limit: a slot for every element
+				}
+				var plan []string
+				for k := 0; k < ln; k++ {
+					plan = append(plan, gen.Bool(k < ln-3))
+				}
+				returned := !r.Hang && !r.Crashed && len(r.Responses) > 0
+				cf.Add(fmt.Sprintf("{| jp_plan := [%s]; jp_limit := %d%%nat; jp_returned := %s |}", strings.Join(plan, "; "), limit, gen.Bool(returned)))
+				descr = append(descr, map[string]any{"config": p.Cfg.Name, "query": cases[i].Query, "oracle": cases[i].Oracle, "hang": r.Hang, "crashed": r.Crashed, "responses": len(r.Responses)})
+			}
 			if reported[cases[i].Oracle.Lens["nodes"]] {
 				continue
 			}
